@@ -33,3 +33,11 @@ Theorem C05_alap : forall p l k,
   (usage p {| bookings := alap_bookings p; placed := nil |} l k <= l_value (lim_of p l))%nat.
 Proof. exact alap_limits. Qed.
 Print Assumptions C05_alap.
+
+(* ---- second granularity (Model/SubSlot.v): a limit counts BOOKINGS - one per (task, resource, slot) whatever
+   part of the slot is used, which is what Limit.inc counts - and in every period it counts at most its value *)
+Require Import SP.Model.SubSlot SP.Proofs.SubSlotProofs.
+Theorem C05_subslot : forall p l k,
+  (susage p (sschedule p) l k <= sl_value (slim_of p l))%nat.
+Proof. exact subslot_limits. Qed.
+Print Assumptions C05_subslot.
